@@ -209,6 +209,26 @@ class HandleGen(object):
             return "$" + vc["civars"][int(r.integers(0, len(vc["civars"])))][0]
         return str(int(r.choice([-1, 0, 0, 1, 1, 2, 3, 4, 7, 8, 100, -2])))
 
+    def step_reload(self, vcname):
+        """save the vnacal_t and load the file into a NEW vnacal_t that takes
+        part in the rest of the history: loaded calibrations are queried,
+        replaced, deleted and applied next to calibrations added later (the
+        model adopts the loaded table from the first dump; everything after
+        that is predicted)"""
+        if len(self.vcs) >= 4:
+            return False
+        s = self.s
+        self.n += 1
+        path = "reload%d.vnacal" % self.n
+        s.op("vnacal_save $%s %s" % (vcname, qs(path)))
+        name = self.uid("vc")
+        s.op("%s=vnacal_load %s" % (name, qs(path)))
+        s.op("dump_vnacal $%s" % name)
+        s.op("vnacal_get_calibration_end $%s" % name)
+        self.vcs[name] = dict(vns={}, params={}, held_dead=set(), dead=[],
+                              civars=[], nvn=0)
+        return True
+
     def step_delcal(self, vcname):
         self.s.op("vnacal_delete_calibration $%s %s" % (
             vcname, self.some_ci(vcname)))
@@ -456,7 +476,7 @@ class HandleGen(object):
                  (self.step_make, 7), (self.step_delparam, 9),
                  (self.step_probe, 7), (self.step_value, 5),
                  (self.step_free, 2), (self.step_apply, 4),
-                 (self.step_foreign, 1)]
+                 (self.step_foreign, 1), (self.step_reload, 2)]
         w = np.array([x[1] for x in steps], dtype=float)
         w /= w.sum()
         guard = 0
